@@ -1086,6 +1086,9 @@ def randsphere(num, ra_range=None, dec_range=None, system="eq", rng=None):
     # now in range [-90,90.0)
     dec -= 90.0
 
+    # arccos rounding can put a point just outside a range that hugs a pole
+    np.clip(dec, dec_range[0], dec_range[1], dec)
+
     if system == "xyz":
         x, y, z = eq2xyz(ra, dec)
         return x, y, z
